@@ -91,7 +91,7 @@ def call_ext(interp, st, name, args, kwargs, frame, node) -> List[Outcome]:
                 return ok(st, Const(len(o.items)))
             if isinstance(o, Inst):
                 return interp.call_method(st, v, "__len__", [], {}, frame, node)
-        if isinstance(v, Sym) and interp.cfg.sym_classes.get(v.tok) is not None:
+        if isinstance(v, Sym) and interp.sym_class(v.tok) is not None:
             return interp.call_method(st, v, "__len__", [], {}, frame, node)
         return ok(st, Sym(("len", vrepr(v)), {IMM}))
     if name == "builtins.range":
@@ -147,7 +147,7 @@ def call_ext(interp, st, name, args, kwargs, frame, node) -> List[Outcome]:
             if isinstance(v, Ref) and isinstance(st.heap.get(v.addr), Inst):
                 return ok(st, ClassV(st.heap[v.addr].cls))
             if isinstance(v, Sym):
-                ci = interp.cfg.sym_classes.get(v.tok)
+                ci = interp.sym_class(v.tok)
                 if ci is not None and "exactclass" in v.tags:
                     return ok(st, ClassV(ci))
                 return ok(st, interp.child_sym(v, "__class__"))
@@ -266,7 +266,7 @@ def has_attr(interp, st, obj, name, const, frame, node):
             return [(st, True)]
         return interp.decide(st, ("hasattr", ("fn", obj.fi.qualname), name))
     if isinstance(obj, Sym):
-        ci = interp.cfg.sym_classes.get(obj.tok)
+        ci = interp.sym_class(obj.tok)
         if ci is not None and const and interp.p.lookup_method(ci, name)[1] is not None:
             return [(st, True)]
         return interp.decide(st, ("hasattr", obj.tok, name))
@@ -378,7 +378,7 @@ def isinstance_(interp, st, v, t, frame, node):
             return [(st, "proxy" in v.tags)]
         if "proxy" in v.tags:
             return [(st, False)]
-        ci = interp.cfg.sym_classes.get(v.tok)
+        ci = interp.sym_class(v.tok)
         if ci is not None and isinstance(t, ClassV):
             if interp.p.is_subclass(ci, t.ci):
                 return [(st, True)]
@@ -478,6 +478,11 @@ def _dict_method(interp, st, ref, o: DictO, m, a, kwargs, frame, node):
     if m in ("get", "pop"):
         k = a[0]
         default = a[1] if len(a) > 1 else (NONE if m == "get" else None)
+        if isinstance(k, Sym) and ("$sym",) + k.tok in o.items:
+            v = o.items[("$sym",) + k.tok]
+            if m == "pop":
+                del o.items[("$sym",) + k.tok]
+            return ok(st, v)
         if isinstance(k, Const):
             try:
                 if k.value in o.items:
@@ -513,13 +518,13 @@ def _dict_method(interp, st, ref, o: DictO, m, a, kwargs, frame, node):
                 outs.append(Outcome("ok", s, default))
         return outs
     if m == "items":
-        pairs = [TupleV([Const(k), v]) for k, v in o.items.items()]
+        pairs = [TupleV([interp.dict_key_value(k), v]) for k, v in o.items.items()]
         if o.rest is None:
             return ok(st, TupleV(pairs))
         rest = TupleV([Sym(tokref + ("key",), {IMM}), o.rest])
         return ok(st, Ref(st.alloc(site + ":items", ListO(pairs, rest, FRESH))))
     if m == "keys":
-        keys = [Const(k) for k in o.items]
+        keys = [interp.dict_key_value(k) for k in o.items]
         if o.rest is None:
             return ok(st, TupleV(keys))
         return ok(st, Ref(st.alloc(site + ":keys", ListO(keys, Sym(tokref + ("key",), {IMM}), FRESH))))
